@@ -10,7 +10,9 @@ ID = "C15"
 LEVEL = "exploration"
 RULE = ("case = generated hierarchy (depth <= 3, component lists) whose child classes come in families with one "
         "external interface and different insides (update blocks, flip-flops, constants connected inside, explicit "
-        "U/RD constraints, nested children, lists) x history of 1..6 replace_component / replace_component_with_obj "
+        "U/RD constraints, nested children, lists; template family: interface components incl. a purely structural "
+        "wrapper that orders its children's blocks, CL components with M constraints, set_param overrides, constants "
+        "tied into interfaces) x history of 1..6 replace_component / replace_component_with_obj "
         "operations on fields and list elements at depth 1..2, incl. re-replacing a position; after EVERY operation "
         "the mutated design is compared with a design built from scratch; non-trivial = >=2 operations, >=1 on a list "
         "element or at depth 2, and the replaced classes have >=3 update blocks in total; distinct = case digest")
